@@ -71,6 +71,13 @@ def expect_reverse(k, m, text):
 PROGRAMS = []
 for _k in (0, 1, 2, 3, 7, 20, 64, 300):
     PROGRAMS.append(('copy_%d' % _k, prog_copy_k(_k), lambda t, k=_k: expect_copy_k(k, t), 0))
+# programs that END BY A PROGRAM-REQUESTED EXIT 1 (pop from stack 2) right after writing: everything written before must
+# have been delivered.  Selecting stack 2 with 흑.. copies the next character (or NaN) to stderr first.
+EXTRA = {}
+for _k in (0, 2, 5, 20):
+    PROGRAMS.append(('copy_%d_exit1' % _k, prog_copy_k(_k) + [(5, 1, 2, None), (1, 1, 3, None), (0, 1, 65, None), (1, 1, 1, None)],
+                     lambda t, k=_k: expect_copy_k(k, t), 0))
+    EXTRA['copy_%d_exit1' % _k] = {'kind': 'exit1', 'err': (lambda t, k=_k: t[k] if len(t) > k else NANTXT)}
 PROGRAMS.append(('cat', prog_cat(False), lambda t: expect_cat(t, False), 0))
 PROGRAMS.append(('cat_exit', prog_cat(True), lambda t: expect_cat(t, True), 0))
 def prog_cat_leftnest():
@@ -220,16 +227,18 @@ def _case(i):
                 res['items'].append(('i', 'watchdog (%s) %s' % (obs.kind, sig)))
                 continue
             problem = None
-            if obs.kind != 'end':
-                problem = 'ended with %s (rc=%s) %s' % (obs.kind, obs.rc, C.clip(obs.proc.errs(), 200))
+            want_kind = EXTRA.get(name, {}).get('kind', 'end')
+            want_err = EXTRA[name]['err'](text) if name in EXTRA else ''
+            if obs.kind != want_kind:
+                problem = 'ended with %s (rc=%s), expected %s %s' % (obs.kind, obs.rc, want_kind, C.clip(obs.proc.errs(), 200))
             elif obs.out != want:
                 j = 0
                 while j < min(len(obs.out), len(want)) and obs.out[j] == want[j]:
                     j += 1
                 problem = 'stdout differs from the input text at character %d: expected %r..., observed %r... (lengths %d / %d)' % (
                     j, want[j:j + 12], obs.out[j:j + 12], len(want), len(obs.out))
-            elif obs.err:
-                problem = 'text on stderr: %s' % C.clip(obs.err, 200)
+            elif obs.err != want_err:
+                problem = 'stderr: expected %r, observed %s' % (want_err[:20], C.clip(obs.err, 200))
             if problem:
                 res['items'].append(('v', sig, 'text did not pass through unchanged', {
                     'program_family': name, 'program': C.clip(render_prog(prog), 300), 'configuration': cfg,
@@ -257,6 +266,11 @@ def main(tier, seed):
             if len(t) < minlen:
                 continue
             o, e, end = Machine(prog, t, Limits(steps=200000, out_chars=10 ** 7)).run()
+            ex = EXTRA.get(name)
+            if ex is not None:
+                if o != fexp(t) or e != ex['err'](t) or end != ex['kind']:
+                    raise C.Inconclusive('copy-program family %s does not validate on the reference model for %r: %r / %r (%s)' % (name, t[:30], o[:40], e[:20], end))
+                continue
             if o != fexp(t) or e != '' or end not in ('end', 'exit0'):
                 raise C.Inconclusive('copy-program family %s does not validate on the reference model for %r: %r vs %r (%s)' % (name, t[:30], o[:40], fexp(t)[:40], end))
     # ---- compile every program at every level once
